@@ -34,7 +34,9 @@ out = ['## 12. Sensitivity: which checks kill which mutants', '',
        'check of every property it is meant to break runs with `VERIF_REPO` '
        'pointing at it (64 runs per check in this table). `revert_*` mutants '
        're-introduce a defect that was repaired. "suite" = the 714 pinned '
-       'tests still pass with the mutant (blank = not verified).', '',
+       'tests still pass with the mutant (blank = not verified; NO = the pinned '
+       'suite itself already fails with it, so it is not a change "that passes '
+       'the existing tests" and its row is informational only).', '',
        '| mutant | what it changes | suite | killed by (first key) | survived |',
        '|---|---|---|---|---|']
 for sp in specs.SPECS:
@@ -72,6 +74,9 @@ for mp in sorted(glob.glob(os.path.join(HERE, 'seeded', '*', 'meta.json'))):
       caught.append(f"{prop} (`{k.split('/', 1)[-1]}`)")
     else:
       missed.append(prop + ('' if c['rc'] == 0 else f" (rc {c['rc']})"))
+  for prop in sorted(m.get('missed_before_strengthening', {})):
+    caught = [c_ + ' — after strengthening' if c_.startswith(prop + ' ') else c_
+              for c_ in caught]
   out.append(f"| {m['id']} | {m['id'].split('-')[0]} | "
              f"{m.get('demo_with_change_rc')}/{m.get('demo_without_change_rc')} | "
              f"{'pass' if m.get('suite_pass') else m.get('suite_pass')} | "
